@@ -29,6 +29,16 @@
  * definitions (not from ufw's code), applied to the whole data image in one
  * go; the expected image is a plain array (previous image overlaid with the
  * part).
+ *
+ * What the statement leaves open is accepted: which of checksum and data image
+ * comes first inside the region and the byte order of the checksum octets (an
+ * "interpretation" of the region, see region_interps) - a violation is only
+ * reported when no interpretation fits, and alteration detection is demanded
+ * relative to the interpretation(s) the store of that case used.  An in-range
+ * store that returns non-success on the fault-free medium is not a violation
+ * either (the statement speaks about successful stores): outcome class
+ * "store-refused", unless the instance then validates an image its checksum
+ * does not cover.
  */
 #include "mc.h"
 
@@ -105,6 +115,28 @@ cks_orders(const unsigned char *p, size_t cs, uint32_t value)
             m &= ~1;
         if (p[i] != (unsigned char)(value >> (8 * (cs - 1 - i))))
             m &= ~2;
+    }
+    return m;
+}
+
+/* Interpretations of a region image: where checksum and data image sit and in
+ * which byte order the checksum octets are.  Bits 0/1: checksum first
+ * ([0,cs) checksum, [cs,cs+N) data), little/big endian; bits 2/3: data first
+ * ([0,N) data, [N,N+cs) checksum), little/big endian.  With `expect` the mask
+ * of interpretations under which the region holds exactly (expect,
+ * checksum(expect)); without, those under which the region is consistent in
+ * itself (checksum octets = checksum of the data octets). */
+#define INTERP_ALL 0xf
+static int
+region_interps(const unsigned char *img, size_t cs, size_t N, int ck, const unsigned char *expect)
+{
+    int m = 0;
+    for (int lay = 0; lay < 2; ++lay) {
+        const unsigned char *data = img + (lay ? 0 : cs);
+        const unsigned char *sum = img + (lay ? N : 0);
+        if (expect && memcmp(data, expect, N) != 0)
+            continue;
+        m |= cks_orders(sum, cs, ref_checksum(ck, data, N)) << (2 * lay);
     }
     return m;
 }
@@ -299,6 +331,8 @@ call_guarded(struct call *c)
 
 static bool failed_here; /* some oracle sentence failed in the running case */
 static bool hung_here;
+static bool refused_here; /* an in-range store returned non-success: case ends "store-refused" */
+static int interp_here;   /* interpretations every successful store of the case agreed with */
 
 #define FAIL(...)                                                              \
     do {                                                                       \
@@ -393,18 +427,25 @@ check_stored(struct inst *in, const struct cfg *c, const unsigned char *expect, 
 {
     const size_t cs = cks_size(c->ck);
     mc_log_hex("  region", M.img, M.size);
-    if (memcmp(M.img + cs, expect, c->N) != 0) {
-        FAIL("C10/store-writes-image", "data image on the medium differs from the stored image");
+    if (memcmp(M.img + cs, expect, c->N) != 0 && memcmp(M.img, expect, c->N) != 0) {
+        FAIL("C10/store-writes-image",
+             "data image on the medium differs from the stored image (neither behind nor in front of the checksum)");
         return false;
     }
     const uint32_t want = ref_checksum(c->ck, expect, c->N);
-    const int o = cks_orders(M.img, cs, want);
+    const int o = region_interps(M.img, cs, c->N, c->ck, expect);
+    interp_here &= o;
     if (orders)
-        *orders = o;
+        *orders = interp_here;
     if (o == 0) {
         FAIL("C10/checksum-on-medium",
              "checksum octets on the medium do not encode %s(data image) = %0*lx",
              CKNAME[c->ck], (int)(2 * cs), (unsigned long)want);
+        return false;
+    }
+    if (interp_here == 0) {
+        FAIL("C10/checksum-on-medium",
+             "this store and an earlier one of the case agree on no placement/byte order of checksum and data image");
         return false;
     }
     PersistentAccess rc;
@@ -431,19 +472,46 @@ check_stored(struct inst *in, const struct cfg *c, const unsigned char *expect, 
     return ok;
 }
 
+/* An in-range store returned non-success on the fault-free medium.  The
+ * statement only speaks about successful stores, so this is no violation: the
+ * case ends in the class "store-refused".  What must not happen is that the
+ * failed store changed the medium and the instance then validates although its
+ * checksum octets do not cover its data octets (under the interpretations the
+ * case established, all of them when there was no successful store yet). */
+static void
+store_refused(struct inst *in, const struct cfg *c, const unsigned char *before, const char *what,
+              PersistentAccess rc)
+{
+    mc_log("  %s refused with %d on a fault-free medium", what, (int)rc);
+    refused_here = true;
+    if (memcmp(before, M.img, M.size) == 0)
+        return;
+    mc_log_hex("  region after the refused store", M.img, M.size);
+    PersistentAccess v;
+    if (!run_op(in, OP_VALIDATE, NULL, 0, 0, 0, &v))
+        return;
+    if (v == PERSISTENT_ACCESS_SUCCESS
+        && (region_interps(M.img, cks_size(c->ck), c->N, c->ck, NULL) & interp_here) == 0)
+        FAIL("C10/refused-store-validates-wrongly",
+             "%s returned %d, changed the medium, and validate then succeeds although the checksum "
+             "octets do not encode %s(data image on the medium)", what, (int)rc, CKNAME[c->ck]);
+}
+
 static bool
 do_store(struct inst *in, const struct cfg *c, const unsigned char *image, int *orders)
 {
     unsigned char *src = mc_exact_copy(image, c->N);
+    unsigned char *before = mc_exact_copy(M.img, M.size);
     PersistentAccess rc;
     bool ok = run_op(in, OP_STORE, src, 0, 0, 0, &rc);
     free(src);
+    if (ok && rc != PERSISTENT_ACCESS_SUCCESS) {
+        store_refused(in, c, before, "store", rc);
+        ok = false;
+    }
+    free(before);
     if (!ok)
         return false;
-    if (rc != PERSISTENT_ACCESS_SUCCESS) {
-        FAIL("C10/store-succeeds", "store returned %d on a fault-free medium", (int)rc);
-        return false;
-    }
     return check_stored(in, c, image, orders);
 }
 
@@ -466,7 +534,8 @@ part_outcome(const struct cfg *c)
 static void
 begin_case(const struct cfg *c, struct inst *in)
 {
-    failed_here = hung_here = false;
+    failed_here = hung_here = refused_here = false;
+    interp_here = INTERP_ALL;
     medium_make(c);
     inst_make(in, c);
 }
@@ -476,7 +545,8 @@ end_case(struct inst *in, bool nontrivial, const char *outcome)
 {
     inst_free(in);
     medium_free();
-    mc_end(nontrivial && !failed_here, hung_here ? "hang" : failed_here ? "failed" : outcome);
+    mc_end(nontrivial && !failed_here && !refused_here,
+           hung_here ? "hang" : failed_here ? "failed" : refused_here ? "store-refused" : outcome);
 }
 
 #define CFGFMT "N=%zu place=%lu ck=%s order=%s buf=%d"
@@ -547,15 +617,16 @@ scenario_part(const struct cfg *c)
                         make_image(src_image, c->N, SRC[si]);
                         /* the caller's buffer holds exactly the part */
                         unsigned char *src = mc_exact_copy(src_image + off, len);
+                        unsigned char *before = mc_exact_copy(M.img, M.size);
                         memcpy(expect + off, src, len);
                         PersistentAccess rc;
                         ok = run_op(&in, OP_STORE_PART, src, off, len, 0, &rc);
                         free(src);
                         if (ok && rc != PERSISTENT_ACCESS_SUCCESS) {
-                            FAIL("C10/store-part-succeeds",
-                                 "store_part(%zu,%zu) inside the data size returned %d", off, len, (int)rc);
+                            store_refused(&in, c, before, "store_part", rc);
                             ok = false;
                         }
+                        free(before);
                         if (ok && check_stored(&in, c, expect, NULL))
                             outcome = part_outcome(c);
                     }
@@ -647,8 +718,10 @@ scenario_alter(const struct cfg *c)
                 if (do_reset(&in, 0x00) && do_store(&in, c, image, &orders)) {
                     const size_t cs = cks_size(c->ck);
                     M.img[pos] ^= MASKS[mi];
-                    const uint32_t want = ref_checksum(c->ck, M.img + cs, c->N);
-                    const bool distinguishes = (cks_orders(M.img, cs, want) & orders) == 0;
+                    /* no placement/byte order the store used makes the altered
+                     * region consistent in itself */
+                    const bool distinguishes =
+                        (region_interps(M.img, cs, c->N, c->ck, NULL) & orders) == 0;
                     PersistentAccess rc;
                     if (run_op(&in, OP_VALIDATE, NULL, 0, 0, 0, &rc)) {
                         if (!distinguishes)
